@@ -1082,11 +1082,11 @@ func c39AllocLimit(declared uint32) uint64 {
 	return c39AllocC * (uint64(declared)*1032 + c39AllocSlack)
 }
 
-// c39FrameShape finds the crafted frame that starts at offset off.
+// c39FrameAt finds the crafted frame that covers offset off.
 func c39FrameAt(h *c39Hostile, off int) *c39HFrame {
 	p := 0
 	for i := range h.Frames {
-		if p == off {
+		if off >= p && off < p+len(h.Frames[i].Bytes) {
 			return &h.Frames[i]
 		}
 		p += len(h.Frames[i].Bytes)
